@@ -55,6 +55,12 @@ CHECKS = {
    note="Trusted: TLC, owner-side observation (StartWorkConn / NatHoleSid received, payload compared). sudp shares the stcp path; NAT-hole timeout shortened to 1 s through the package variable.",
    technique="TLA+ spec FrpsVisitors (admission rule) + trace validation of real frps executions (Trace_FrpsVisitors)",
    design="4 (C08), 3.6"),
+ "C20": dict(
+   level="model_checking",
+   text="NatHoleAnalysis transcribes the five mode tables, the initial scores per feature pair, Recommand / ReportSuccess, the swap rules, the range computation and the timeouts; TLC exhaustively explores all 36 NAT feature pairs x every recommendation / success-report history up to 12 (20) steps and checks RolesComplementary, IndexInTable, Mode1HardSends, Mode2HardListens, Mode4RegularSends, ScoresBounded and ReceiverOutlastsSender; the real nathole.Controller is driven through complete visitor/client exchanges over address-list classes (incl. duplicates, boundary and malformed ports) with histories per address pair, and TLC checks every pair of responses against the specification's decision for that history (same sid and mode, complementary roles, table fields, read timeouts, candidate addresses, candidate port ranges within 1..65535, error to both parties for bad addresses); session admission and absence of residue are checked through FrpsVisitors.",
+   note="Trusted: TLC; the transcription is bound by comparing every response field. 'Honest peers meet' is decided at the level of the instructions (timing and candidate sets), the UDP exchange itself is not run; NatHoleTimeout shortened to 2 s through the package variable.",
+   technique="TLA+ spec NatHoleAnalysis model-checked with TLC + trace validation of real controller exchanges (Trace_NatHole, Trace_FrpsVisitors)",
+   design="4 (C20), 3.6"),
 }
 
 hooks_commits = subprocess.run("git -C /repo log --format=%h --grep='^verif:' --reverse", shell=True, capture_output=True, text=True).stdout.split()
